@@ -1,4 +1,5 @@
 import Neutrino.Props.C08
+import Neutrino.Props.C08Import
 open Neutrino.Store
 #print axioms C08_recover
 #print axioms C08_recovered_consistent
@@ -13,3 +14,8 @@ open Neutrino.Store
 #print axioms C08_restart_killed
 #print axioms C08_start_steps_agree
 #print axioms C08_first_init_keeps_data
+#print axioms C08_sequence_recover
+#print axioms C08_import_recover
+#print axioms C08_import_source_shape
+#print axioms importOps_contract
+#print axioms applyAll_importOps_take
